@@ -99,6 +99,7 @@ func enumPaths(fn *ssa.Function, limit, maxVisits int) (paths []Path, complete b
 		}
 		if s.visits[b] >= maxVisits {
 			s.path.Cut = true
+			s.path.Mem = s.mem
 			paths = append(paths, s.path)
 			return
 		}
@@ -175,6 +176,7 @@ func enumPaths(fn *ssa.Function, limit, maxVisits int) (paths []Path, complete b
 			case *ssa.Panic:
 				s.path.Ret = []string{"<panic " + s.term(x.X) + ">"}
 				s.path.Exit = x
+				s.path.Mem = s.mem
 				paths = append(paths, s.path)
 				return
 			case *ssa.Jump:
@@ -442,3 +444,18 @@ func (p *Path) pos() token.Pos {
 	}
 	return p.Exit.Parent().Pos()
 }
+
+// eventIndex returns the index of the first event at or after from whose
+// kind matches and whose description satisfies pred, or -1.
+func (p *Path) eventIndex(from int, kind string, pred func(string) bool) int {
+	for i := from; i < len(p.Events); i++ {
+		if p.Events[i].Kind == kind && pred(p.Events[i].Desc) {
+			return i
+		}
+	}
+	return -1
+}
+
+func eq(s string) func(string) bool      { return func(x string) bool { return x == s } }
+func prefix(s string) func(string) bool  { return func(x string) bool { return strings.HasPrefix(x, s) } }
+func contains(s string) func(string) bool { return func(x string) bool { return strings.Contains(x, s) } }
